@@ -1072,3 +1072,216 @@ pub fn c13(thorough: bool, replay: Option<String>) -> i32 {
     rep.add_sub("generated", &format!("{} programs with 1..4 user functions plus compiler-synthesised helpers (let/assign/lambda), 6 sigils, optimise on/off", n), n, true, capped, st);
     rep.finish()
 }
+
+// ---------------------------------------------------------------------------
+// C17 — an argument reported as unused cannot influence the result
+
+const USE_CLASSES: [&str; 8] = ["direct", "via-defun", "via-inline", "via-let", "via-lambda-capture", "under-condition-on-another-parameter", "only-in-raise", "not-at-all"];
+
+fn usecheck_program(k: usize, classes: &[usize], shape: usize, sigil: &'static str) -> Prog {
+    let names: Vec<String> = (0..k).map(|i| format!("p{}", i)).collect();
+    let params = match shape {
+        0 => Pat::list(names.iter().map(|n| Pat::n(n)).collect()),
+        1 => {
+            // nested: ((p0 p1) p2 ...)
+            if k >= 2 {
+                let inner = Pat::list(vec![Pat::n(&names[0]), Pat::n(&names[1])]);
+                let mut items = vec![inner];
+                items.extend(names[2..].iter().map(|n| Pat::n(n)));
+                Pat::list(items)
+            } else {
+                Pat::list(vec![Pat::list(vec![Pat::n(&names[0])])])
+            }
+        }
+        _ => {
+            // dotted tail
+            let items: Vec<Pat> = names[..k - 1].iter().map(|n| Pat::n(n)).collect();
+            Pat::list_tail(items, Pat::n(&names[k - 1]))
+        }
+    };
+    let mut helpers = vec![];
+    let mut items = vec![];
+    for i in 0..k {
+        let p = E::Var(names[i].clone());
+        let other = E::Var(names[(i + 1) % k].clone());
+        let e = match USE_CLASSES[classes[i]] {
+            "direct" => p,
+            "via-defun" => {
+                helpers.push(Helper::Fun { name: format!("fd{}", i), inline: false, params: Pat::list(vec![Pat::n("X")]), body: E::prim("c", vec![E::v("X"), E::int(1)]) });
+                E::call(&format!("fd{}", i), vec![p])
+            }
+            "via-inline" => {
+                helpers.push(Helper::Fun { name: format!("fi{}", i), inline: true, params: Pat::list(vec![Pat::n("X")]), body: E::prim("c", vec![E::v("X"), E::int(2)]) });
+                E::call(&format!("fi{}", i), vec![p])
+            }
+            "via-let" => E::Let(LetKind::Let, vec![(format!("L{}", i), p)], Box::new(E::prim("c", vec![E::Var(format!("L{}", i)), E::int(3)]))),
+            "via-lambda-capture" => E::Apply(Box::new(E::Lambda(vec![names[i].clone()], Pat::list(vec![Pat::n("Z")]), Box::new(E::prim("c", vec![E::Var(names[i].clone()), E::v("Z")])))), Box::new(E::List(vec![E::int(4)]))),
+            "under-condition-on-another-parameter" => E::If(Box::new(other), Box::new(p), Box::new(E::int(0))),
+            "only-in-raise" => E::If(Box::new(E::prim("l", vec![E::int(5)])), Box::new(E::prim("x", vec![p])), Box::new(E::int(7))),
+            _ => E::int(9),
+        };
+        items.push(e);
+    }
+    Prog { sigil: Some(sigil), params, helpers, body: E::List(items) }
+}
+
+fn fill_pat(p: &Pat, vals: &std::collections::HashMap<String, T>) -> T {
+    match p {
+        Pat::Name(n) => vals.get(n).cloned().unwrap_or_else(T::nil),
+        Pat::Nil => T::nil(),
+        Pat::Cons(a, b) => T::p(fill_pat(a, vals), fill_pat(b, vals)),
+        Pat::At(_, s) => fill_pat(s, vals),
+    }
+}
+
+fn unused_report(text: &str, sigil: &str) -> Result<Vec<String>, String> {
+    use chialisp::compiler::compiler::DefaultCompilerOpts;
+    use chialisp::compiler::comptypes::CompilerOpts;
+    use chialisp::compiler::frontend::frontend;
+    use chialisp::compiler::sexp::parse_sexp;
+    use chialisp::compiler::srcloc::Srcloc;
+    use chialisp::compiler::usecheck::check_parameters_used_compileform;
+    use std::rc::Rc;
+    let text = text.to_string();
+    let d = dialect_of(sigil);
+    crate::par::catch(std::panic::AssertUnwindSafe(move || {
+        let opts: Rc<dyn CompilerOpts> = Rc::new(DefaultCompilerOpts::new("*verif*"));
+        let opts = opts.set_dialect(d);
+        let forms = parse_sexp(Srcloc::start("*verif*"), text.bytes()).map_err(|e| e.1)?;
+        let cf = frontend(opts.clone(), &forms).map_err(|e| e.1)?;
+        let set = check_parameters_used_compileform(opts, Rc::new(cf)).map_err(|e| e.1)?;
+        let mut v: Vec<String> = set.into_iter().map(|b| String::from_utf8_lossy(&b).to_string()).collect();
+        v.sort();
+        Ok(v)
+    }))
+    .unwrap_or_else(|p| Err(format!("PANIC {}", p)))
+}
+
+fn check_c17(st: &mut Stats, k: usize, classes: &[usize], shape: usize, sigil: &'static str) {
+    st.eval();
+    let prog = usecheck_program(k, classes, shape, sigil);
+    let text = prog.text();
+    let replay = json!({"kind": "c17", "text": text, "sigil": sigil});
+    let tag: Vec<&str> = classes.iter().map(|c| USE_CLASSES[*c]).collect();
+    let reported = match unused_report(&text, sigil) {
+        Ok(r) => r,
+        Err(e) => {
+            if e.starts_with("PANIC") {
+                st.violation("usecheck-panic", format!("{}: {}", text, e), text.len(), replay);
+            } else {
+                st.outcome("usecheck-error(no claim)");
+            }
+            return;
+        }
+    };
+    let code = match modern_compile(&text, dialect_of(sigil), &entry_option_sets(sigil)[0].1) {
+        Ok(c) => c.code,
+        Err(_) => {
+            st.outcome("compile-rejected(no claim)");
+            return;
+        }
+    };
+    st.outcome(&format!("reported-unused:{}", reported.len()));
+    let names: Vec<String> = (0..k).map(|i| format!("p{}", i)).collect();
+    let alpha = [T::nil(), T::int(5), T::p(T::int(7), T::int(9))];
+    // all valuations
+    let total = (alpha.len() as u64).pow(k as u32);
+    let mut outcomes: Vec<Out> = vec![];
+    for v in 0..total {
+        let mut vals = std::collections::HashMap::new();
+        for (i, n) in names.iter().enumerate() {
+            vals.insert(n.clone(), alpha[((v / (alpha.len() as u64).pow(i as u32)) % alpha.len() as u64) as usize].clone());
+        }
+        let out = consensus(&code, &fill_pat(&prog.params, &vals));
+        outcomes.push(match out {
+            Out::Err(_) => Out::Err("fails".to_string()),
+            o => o,
+        });
+    }
+    for r in &reported {
+        let i = match names.iter().position(|n| n == r) {
+            Some(i) => i,
+            None => {
+                st.violation("reports-unknown-name", format!("{}: reported unused parameter {:?} is not a parameter", text, r), text.len(), replay.clone());
+                continue;
+            }
+        };
+        let stride = (alpha.len() as u64).pow(i as u32);
+        let mut influenced = None;
+        let mut pairs = 0u64;
+        for v in 0..total {
+            if (v / stride) % alpha.len() as u64 != 0 {
+                continue;
+            }
+            for d in 1..alpha.len() as u64 {
+                pairs += 1;
+                if outcomes[v as usize] != outcomes[(v + d * stride) as usize] {
+                    influenced = Some((v, v + d * stride));
+                }
+            }
+        }
+        st.count("non-interference-pairs-checked", pairs);
+        match influenced {
+            None => {
+                st.outcome(&format!("unused-confirmed:{}", USE_CLASSES[classes[i]]));
+                st.nontrivial(&(&text, r));
+                st.sample(json!({"program": text, "reported_unused": r, "usage_class": USE_CLASSES[classes[i]], "pairs_checked": pairs}));
+            }
+            Some((a, b)) => {
+                st.violation(
+                    &format!("reported-unused-but-influences/{}", USE_CLASSES[classes[i]]),
+                    format!("{}: parameter {} ({}) is reported unused, but valuations #{} and #{} differing only in it give {} and {} (usage classes {:?})", text, r, USE_CLASSES[classes[i]], a, b, outcomes[a as usize].short(), outcomes[b as usize].short(), tag),
+                    text.len(),
+                    replay.clone(),
+                );
+            }
+        }
+    }
+    // informational: which used-looking classes were reported (completeness is not claimed)
+    for (i, n) in names.iter().enumerate() {
+        if !reported.contains(n) {
+            st.count(&format!("not-reported:{}", USE_CLASSES[classes[i]]), 1);
+        }
+    }
+}
+
+pub fn c17(thorough: bool, replay: Option<String>) -> i32 {
+    let mut rep = Report::new("C17", if thorough { "thorough" } else { "quick" }, "exploration");
+    rep.rule = "programs with k lower-case parameters in flat, nested and dotted parameter lists where each parameter is independently in one of 8 usage classes (direct; only through a defun / an inline / a let / a lambda capture; only under a condition on another parameter; only as the argument of a raise; not at all): ALL 8^k assignments for k <= 3 (thorough: k = 4 as well), 3 list shapes, 2 sigils. \
+        For every parameter reported by check_parameters_used_compileform, ALL pairs of argument valuations differing only in that parameter (values from {(), 5, (7 . 9)}, the other parameters over the same alphabet, all combinations) must give identical outcomes (same value, or failure on both sides) of the compiled program under clvmr. non-trivial = distinct (program, reported parameter) pairs confirmed non-interfering"
+        .to_string();
+    rep.assumptions = vec!["completeness of the report is not claimed by the property and not checked (counted for information)".to_string()];
+    if replay.is_some() {
+        let st = Stats::new();
+        rep.add_sub("replay", "re-run the check; replay files carry the program text", 0, false, false, st);
+        return rep.finish();
+    }
+    let cap = Some(Duration::from_secs(if thorough { 3000 } else { 50 }));
+    let sigils: [&'static str; 2] = ["*standard-cl-21*", "*standard-cl-23*"];
+    let mut plan: Vec<(usize, Vec<usize>, usize, &'static str)> = vec![];
+    let maxk = if thorough { 4 } else { 3 };
+    for k in 1..=maxk {
+        let total = 8u64.pow(k as u32);
+        for a in 0..total {
+            let classes: Vec<usize> = (0..k).map(|i| ((a / 8u64.pow(i as u32)) % 8) as usize).collect();
+            for shape in 0..3 {
+                if shape == 2 && k < 2 {
+                    continue;
+                }
+                for s in sigils {
+                    if !thorough && k == 3 && s != sigils[0] && shape != 0 {
+                        continue;
+                    }
+                    plan.push((k, classes.clone(), shape, s));
+                }
+            }
+        }
+    }
+    let n = plan.len() as u64;
+    let (st, capped) = par_range(n, 8, cap, || (), |_, st, i| {
+        let (k, classes, shape, s) = &plan[i as usize];
+        check_c17(st, *k, classes, *shape, s);
+    });
+    rep.add_sub("usage-classes", &format!("all 8^k usage-class assignments for k = 1..{} x 3 parameter-list shapes x 2 sigils ({} programs), each with all 3^k valuations", maxk, n), n, true, capped, st);
+    rep.finish()
+}
